@@ -430,6 +430,29 @@ def merged_items(I, v, cond=TRUE):
     return out
 
 
+def specialise(t, cond, _memo=None):
+    """t with every conditional (at any depth) whose condition is decided by `cond` replaced by the live alternative"""
+    from .terms import rebuild
+    memo = {} if _memo is None else _memo
+    k = id(t)
+    if k in memo:
+        return memo[k]
+    r = t
+    if isinstance(t, Ite):
+        if unsat(and_(cond, t.c))[0]:
+            r = specialise(t.b, cond, memo)
+        elif unsat(and_(cond, not_(t.c)))[0]:
+            r = specialise(t.a, cond, memo)
+        else:
+            r = ite(t.c, specialise(t.a, cond, memo), specialise(t.b, cond, memo))
+    elif isinstance(t, Op) and t.args:
+        args = tuple(specialise(a, cond, memo) for a in t.args)
+        if any(x is not y for x, y in zip(args, t.args)):
+            r = rebuild(t.op, args)
+    memo[k] = r
+    return r
+
+
 def with_heap(I, env):
     """environment in which references to summarised lists / dictionaries evaluate to their concrete contents"""
     def hook(ref, e):
